@@ -1038,3 +1038,103 @@ pub fn docs_for(rng: &mut Rng, rule: &Yaml, k: &Knobs, n: usize) -> Vec<MVal> {
     }
     docs
 }
+
+// ---------------------------------------------------------------------------------------------
+// Static key set of a rule (from its YAML text, never from the engine)
+// ---------------------------------------------------------------------------------------------
+
+#[derive(Clone, Debug, Default)]
+pub struct KeySet {
+    /// keys the engine may present to the user's root document, as written in the rule
+    pub root_keys: std::collections::BTreeSet<String>,
+    /// normalised (indices stripped) segment paths the engine may `get`
+    pub paths: std::collections::BTreeSet<String>,
+}
+
+pub fn strip_indices(path: &str) -> String {
+    let mut out = String::with_capacity(path.len());
+    let mut depth = 0;
+    for c in path.chars() {
+        match c {
+            '[' => depth += 1,
+            ']' => {
+                if depth > 0 {
+                    depth -= 1
+                }
+            }
+            c if depth == 0 => out.push(c),
+            _ => {}
+        }
+    }
+    out
+}
+
+fn keyset_add_field(ks: &mut KeySet, prefix: &str, field: &str, root: bool) -> String {
+    if root {
+        ks.root_keys.insert(field.to_owned());
+    }
+    let mut cur = prefix.to_owned();
+    for seg in field.split('.') {
+        let seg = strip_indices(seg);
+        if !cur.is_empty() {
+            cur.push('.');
+        }
+        cur.push_str(&seg);
+        ks.paths.insert(cur.clone());
+    }
+    cur
+}
+
+fn keyset_mapping(ks: &mut KeySet, m: &Mapping, prefix: &str, root: bool) {
+    for (k, v) in m {
+        let key = match k.as_str() {
+            Some(s) => s,
+            None => continue,
+        };
+        let (_, field) = split_key(key);
+        let here = keyset_add_field(ks, prefix, &field, root);
+        keyset_value(ks, v, &here);
+    }
+}
+
+fn keyset_value(ks: &mut KeySet, v: &Yaml, prefix: &str) {
+    match v {
+        Yaml::Mapping(m) => keyset_mapping(ks, m, prefix, false),
+        Yaml::Sequence(s) => {
+            for item in s {
+                if let Yaml::Mapping(m) = item {
+                    keyset_mapping(ks, m, prefix, false);
+                }
+            }
+        }
+        _ => {}
+    }
+}
+
+pub fn key_set(rule: &Yaml) -> KeySet {
+    let mut ks = KeySet::default();
+    if let Some(det) = detection_of(rule) {
+        for (k, v) in det {
+            if k.as_str() == Some("condition") {
+                if let Some(c) = v.as_str() {
+                    for f in cond_cast_fields(c) {
+                        keyset_add_field(&mut ks, "", &f, true);
+                    }
+                }
+                continue;
+            }
+            match v {
+                Yaml::Mapping(m) => keyset_mapping(&mut ks, m, "", true),
+                Yaml::Sequence(s) => {
+                    for item in s {
+                        if let Yaml::Mapping(m) = item {
+                            keyset_mapping(&mut ks, m, "", true);
+                        }
+                    }
+                }
+                _ => {}
+            }
+        }
+    }
+    ks
+}
